@@ -69,20 +69,15 @@ fn check_seq<S: Src, const L: usize>(s: &mut S, fixed: &[u8]) {
 harness!(preconditions_len_0, unwind = 10, |s| { check_seq::<S, 0>(s, &[]) });
 harness!(preconditions_len_1, unwind = 10, |s| { check_seq::<S, 1>(s, &[]) });
 harness!(preconditions_len_2, unwind = 10, |s| { check_seq::<S, 2>(s, &[]) });
-// length 3: the first two token kinds are fixed per harness (49 harnesses), the third is symbolic
-macro_rules! len3 { ($($name:ident = [$a:expr, $b:expr]),* $(,)?) => { $( harness!($name, unwind = 10, |s| { check_seq::<S, 3>(s, &[$a, $b]) }); )* } }
-len3!(l3_00 = [0, 0], l3_01 = [0, 1], l3_02 = [0, 2], l3_03 = [0, 3], l3_04 = [0, 4], l3_05 = [0, 5], l3_06 = [0, 6],
-      l3_10 = [1, 0], l3_11 = [1, 1], l3_12 = [1, 2], l3_13 = [1, 3], l3_14 = [1, 4], l3_15 = [1, 5], l3_16 = [1, 6],
-      l3_20 = [2, 0], l3_21 = [2, 1], l3_22 = [2, 2], l3_23 = [2, 3], l3_24 = [2, 4], l3_25 = [2, 5], l3_26 = [2, 6],
-      l3_30 = [3, 0], l3_31 = [3, 1], l3_32 = [3, 2], l3_33 = [3, 3], l3_34 = [3, 4], l3_35 = [3, 5], l3_36 = [3, 6],
-      l3_40 = [4, 0], l3_41 = [4, 1], l3_42 = [4, 2], l3_43 = [4, 3], l3_44 = [4, 4], l3_45 = [4, 5], l3_46 = [4, 6],
-      l3_50 = [5, 0], l3_51 = [5, 1], l3_52 = [5, 2], l3_53 = [5, 3], l3_54 = [5, 4], l3_55 = [5, 5], l3_56 = [5, 6],
-      l3_60 = [6, 0], l3_61 = [6, 1], l3_62 = [6, 2], l3_63 = [6, 3], l3_64 = [6, 4], l3_65 = [6, 5], l3_66 = [6, 6]);
+// length 3: the first two token kinds are fixed per harness and the third is symbolic: 38 of the 49 prefixes
+// (3-15 s each).  The 11 prefixes whose second token is an operator that may legally follow the first
+// (`x -`, `x *`, `x sin`, `) -`, `) *`, `) sin`, `- *`, `sin *`) are NOT covered: no result in 15 min, neither with
+// a symbolic nor with a concrete third kind (measured).  The sampled native probe below includes them.
+macro_rules! len3 { ($($name:ident = [$($k:expr),+]),* $(,)?) => { $( harness!($name, unwind = 10, |s| { check_seq::<S, 3>(s, &[$($k),+]) }); )* } }
+len3!(l3_00 = [0, 0], l3_01 = [0, 1], l3_02 = [0, 2], l3_03 = [0, 3], l3_10 = [1, 0], l3_11 = [1, 1], l3_12 = [1, 2], l3_13 = [1, 3], l3_20 = [2, 0], l3_21 = [2, 1], l3_22 = [2, 2], l3_23 = [2, 3], l3_24 = [2, 4], l3_25 = [2, 5], l3_26 = [2, 6], l3_30 = [3, 0], l3_31 = [3, 1], l3_32 = [3, 2], l3_33 = [3, 3], l3_40 = [4, 0], l3_41 = [4, 1], l3_42 = [4, 2], l3_43 = [4, 3], l3_44 = [4, 4], l3_46 = [4, 6], l3_50 = [5, 0], l3_51 = [5, 1], l3_52 = [5, 2], l3_53 = [5, 3], l3_54 = [5, 4], l3_55 = [5, 5], l3_56 = [5, 6], l3_60 = [6, 0], l3_61 = [6, 1], l3_62 = [6, 2], l3_63 = [6, 3], l3_64 = [6, 4], l3_66 = [6, 6]);
+pub fn preconditions_len_3<S: Src>(s: &mut S) { check_seq::<S, 3>(s, &[]) }
 // native-only sampled probe: 8 tokens, all kinds drawn
 pub fn preconditions_len_8<S: Src>(s: &mut S) { check_seq::<S, 8>(s, &[]) }
 
-registry!("c07", preconditions_len_8, preconditions_len_0, preconditions_len_1, preconditions_len_2,
-    l3_00, l3_01, l3_02, l3_03, l3_04, l3_05, l3_06, l3_10, l3_11, l3_12, l3_13, l3_14, l3_15, l3_16,
-    l3_20, l3_21, l3_22, l3_23, l3_24, l3_25, l3_26, l3_30, l3_31, l3_32, l3_33, l3_34, l3_35, l3_36,
-    l3_40, l3_41, l3_42, l3_43, l3_44, l3_45, l3_46, l3_50, l3_51, l3_52, l3_53, l3_54, l3_55, l3_56,
-    l3_60, l3_61, l3_62, l3_63, l3_64, l3_65, l3_66);
+registry!("c07", preconditions_len_8, preconditions_len_3, preconditions_len_0, preconditions_len_1, preconditions_len_2,
+    l3_00, l3_01, l3_02, l3_03, l3_10, l3_11, l3_12, l3_13, l3_20, l3_21, l3_22, l3_23, l3_24, l3_25, l3_26, l3_30, l3_31, l3_32, l3_33, l3_40, l3_41, l3_42, l3_43, l3_44, l3_46, l3_50, l3_51, l3_52, l3_53, l3_54, l3_55, l3_56, l3_60, l3_61, l3_62, l3_63, l3_64, l3_66);
